@@ -107,12 +107,17 @@ func c06Run(t *testing.T, run *Run, sc c06Scenario, rng *rand.Rand) {
 	var rejected []string
 	mustFail := true
 	switch sc.Class {
+	// (the well-formed targets named next to a malformed one are rejected with it: they exist, they
+	// are healthy, and nothing may probe them once the command has failed)
 	case "bad-target-first":
+		rejected = append([]string{}, f.Targets...)
 		f.Targets = append([]string{"bad name!"}, f.Targets...)
 	case "bad-target-last":
+		rejected = append([]string{}, f.Targets...)
 		f.Targets = append(f.Targets, "x")
 	case "bad-target-rollout":
 		f = Cmd{Kind: "rollout-deploy", Svc: victim, Targets: []string{"ok-target:80", "-bad"}, DeployTO: 2 * time.Second, DrainTO: time.Second}
+		rejected = []string{"ok-target:80"}
 	case "never-healthy-all", "never-healthy-one", "never-healthy-new-service":
 		if sc.Class == "never-healthy-new-service" {
 			f.Svc, f.Hosts = "s9", []string{"h9.example"}
